@@ -700,7 +700,11 @@ class FnCtx:
             if is_method:
                 o = args[0]
                 args = args[1:]
+                oldw = getattr(self, 'write_ctx', False)
+                # an assignment operator applied to a guarded field (e.g. std::atomic<bool>::operator=) is a write
+                self.write_ctx = name.endswith('=') and name not in ('operator==', 'operator!=', 'operator<=', 'operator>=')
                 obj = self.addr(o) if is_glvalue(o) else '&' + self.materialize(o)
+                self.write_ctx = oldw
                 if f is not None:
                     fname = f.cname
                     self.calls.add(fname)
